@@ -26,13 +26,22 @@ C14 line-protocol driver.
       ops = rd:<key> | t+ | ch | w:<blob> | sy | cl | mv:<key> | rm
       tmp = the temp files left in the directory, each e (empty) | p (torn) | w (whole), sorted
 
+  cs <ev>;<ev>;…        start-ups of the PKI app whose config selects the storage: ev = <g|o><s|l>:<fault>
+                        (g: the config's global storage, o: the CA's own `storage` module — `TwoStores.lean`)
+    answer: per event  `<g|o>:<res> [<ops on the selected storage>] {<selected storage>} | {<other storage>}`
+
   rs <env> <files> <ev>;…   the real `caddy run [--resume] --envfile … --config …` (see harness resume.go)
       env   = x<val>h<val>      XDG_CONFIG_HOME, HOME of the process: - unset | e empty | 0..3 a directory
       files = . | <file>/<file>/…   file = _ | <var>=<val>,…   var = x | h | o
-      ev    = S:<r|->:<cfg> | P:<cfg> | Q:<cfg> | I:<cfg> | K     cfg = <n><p|d|n>[x|k][i|u] | c<n><d|n> (S only)
-              (P = POST /load; Q = PATCH /config/apps/c14probe, I = PATCH /id/a with the app object of cfg;
+      ev    = S:<r|->:<cfg> | P:<cfg> | F:<cfg> | G:<cfg> | M:<cfg> | X:<cfg> | Y:<cfg> | Q:<cfg> | I:<cfg> | K
+              cfg = <n><p|d|n>[x|k][i|u] | c<n><d|n> (S, P, F, G: a Caddyfile) | c<n>b (P, F, G: a Caddyfile the adapter refuses)
+              (P = POST /load, F = the same with `Cache-Control: must-revalidate`, G = with `no-cache, must-revalidate`;
+               M = PUT /load, X = Content-Type of an adapter that does not exist, Y = a Content-Type without a slash
+               (with must-revalidate): all three are answered before caddy.Load;
+               a JSON cfg goes out as application/json, a Caddyfile as text/caddyfile — `Endpoint.lean`;
+               Q = PATCH /config/apps/c14probe, I = PATCH /id/a with the app object of cfg;
                i / u = the app object carries @id a / b)
-    answer per event: S=<running config>|S=fail, P=<ok|rej>|P=norun, K, each + {a=<autosave where the
+    answer per event: S=<running config>|S=fail, P=<ok[!]|rej>|P=norun (`!` = the autosave file was written again), K, each + {a=<autosave where the
     environment after the env files says>,b=<… where the process environment alone says>}
 
   as <ev>;<ev>;…        a history of config loads and process restarts on one autosave directory
@@ -52,6 +61,8 @@ C14 line-protocol driver.
 import CaddyModel.C14.Model
 import CaddyModel.C14.FileStore
 import CaddyModel.C14.Resume
+import CaddyModel.C14.Endpoint
+import CaddyModel.C14.TwoStores
 
 namespace CaddyModel.C14
 
@@ -179,6 +190,41 @@ def parseCAEvents : List String → Nat → Option (List CAStep)
 def handleCA (hist : String) : String :=
   match parseCAEvents (hist.splitOn ";") 1 with
   | some evs => render (sepBy (.s " ; ") (caToks codeOrder evs World.empty)) [] ""
+  | none => "bad-op"
+
+/-! ### the CA on the storage its config selects (`cs`): ev = <g|o><s|l>:<fault> — g: no `storage` in the
+CA's config (the config's global storage), o: the CA's own `storage` module -/
+
+def parseCSEvent (now : Nat) (s : String) : Option (StoreSel × Event) :=
+  match s.toList with
+  | c :: rest =>
+    match (if c == 'g' then some StoreSel.global else if c == 'o' then some StoreSel.own else none),
+          parseCAEvent now (String.ofList rest) with
+    | some sel, some (.start e) => some (sel, e)
+    | _, _ => none
+  | [] => none
+
+def parseCSEvents : List String → Nat → Option (List (StoreSel × Event))
+  | [], _ => some []
+  | s :: ss, now => do
+    let e ← parseCSEvent now s
+    let es ← parseCSEvents ss (now + 1)
+    pure (e :: es)
+
+def selName : StoreSel → String
+  | .global => "g:"
+  | .own => "o:"
+
+/-- per start-up: the selected storage's answer as in `ca`, then the OTHER storage -/
+def csToks (ord : Order) : List (StoreSel × Event) → Disks → List (List Tok)
+  | [], _ => []
+  | se :: es, ds =>
+    ([.s (selName se.1)] ++ eventToks (se.2.run ord (ds.sel se.1)) ++ [.s " | {"] ++ storeToks (ds.sel se.1.other).store ++ [.s "}"]) ::
+      csToks ord es (ds.step ord se.1 se.2)
+
+def handleCS (hist : String) : String :=
+  match parseCSEvents (hist.splitOn ";") 1 with
+  | some evs => render (sepBy (.s " ; ") (csToks codeOrder evs Disks.empty)) [] ""
   | none => "bad-op"
 
 /-! ### the CA on FileStorage -/
@@ -435,27 +481,59 @@ def parseRSCfg (force : Bool) (s : String) : Option Load := (parseRSTok s.toList
 
 inductive RSEvent
   | start (resume : Bool) (cfg : Load)
-  | push (cfg : Load)
+  | push (kind : String) (r : LoadReq)   -- POST /load: P no Cache-Control | F `must-revalidate` | G `no-cache, must-revalidate`
   | patch (byId : Bool) (t : RSTok)   -- PATCH /config/apps/c14probe | PATCH /id/a with the app object of `t`
   | kill
 
 /-- (S only) a Caddyfile: c<n><d|n> — adapted by the real adapter; `n` = `persist_config off` -/
-def parseRSCaddyfile (s : String) : Option Load :=
+def parseRSCaddyfile (force : Bool) (s : String) : Option Load :=
   match s.toList with
   | 'c' :: rest =>
     match rest.span Char.isDigit with
     | (num, [p]) =>
       if num.isEmpty then none
-      else if p == 'd' then some (caddyfileLoad (str (String.ofList ('c' :: rest))) .absent true true)
-      else if p == 'n' then some (caddyfileLoad (str (String.ofList ('c' :: rest))) .off true true)
+      else if p == 'd' then some (caddyfileLoad (str (String.ofList ('c' :: rest))) .absent force true)
+      else if p == 'n' then some (caddyfileLoad (str (String.ofList ('c' :: rest))) .off force true)
       else none
     | _ => none
   | _ => none
 
+/-- the text of a pushed Caddyfile is NOT the document it adapts to: the request body of a pushed
+    c-config is `caddyfile:<token>`, the adapted document is `<token>` -/
+def caddyfileMark : Bytes := str "caddyfile:"
+
+/-- the request of a P / F / G event: a JSON token goes out as `application/json`, a Caddyfile
+    c<n><d|n|b> (b = a Caddyfile the adapter refuses) as `text/caddyfile` -/
+def parseRSPush (cache : CacheControl) (c : String) : Option LoadReq :=
+  match parseRSTok c.toList with
+  | some _ => some ⟨true, .json, cache, str c⟩
+  | none =>
+    match c.toList with
+    | 'c' :: rest =>
+      match rest.span Char.isDigit with
+      | (num, [p]) =>
+        if num.isEmpty || !(p == 'd' || p == 'n' || p == 'b') then none
+        else some ⟨true, .adapter true, cache, caddyfileMark ++ str c⟩
+      | _ => none
+    | _ => none
+
+/-- the Caddyfile adapter on a pushed body: the document named by the token, or an error -/
+def rsAdapt (b : Bytes) : Option Bytes :=
+  if caddyfileMark.isPrefixOf b then
+    match parseRSCaddyfile false (bytesToString (b.drop caddyfileMark.length)) with
+    | some _ => some (b.drop caddyfileMark.length)
+    | none => none
+  else none
+
 def parseRSEvent (s : String) : Option RSEvent :=
   match s.splitOn ":" with
   | ["K"] => some .kill
-  | ["P", c] => (parseRSCfg false c).map .push
+  | ["P", c] => (parseRSPush .absent c).map (.push "P")
+  | ["F", c] => (parseRSPush .mustRevalidate c).map (.push "F")
+  | ["G", c] => (parseRSPush .other c).map (.push "G")
+  | ["M", c] => (parseRSPush .absent c).map fun r => .push "M" { r with post := false }
+  | ["X", c] => (parseRSPush .absent c).map fun r => .push "X" { r with ctype := .adapter false }
+  | ["Y", c] => (parseRSPush .mustRevalidate c).map fun r => .push "Y" { r with ctype := .malformed }
   | ["Q", c] => match parseRSTok c.toList with
     | some t => if t.pki then none else some (.patch false t)
     | none => none
@@ -466,7 +544,7 @@ def parseRSEvent (s : String) : Option RSEvent :=
     if r != "r" && r != "-" then none else
     match parseRSCfg true c with
     | some l => if l.accepted then some (.start (r == "r") l) else none
-    | none => (parseRSCaddyfile c).map (.start (r == "r"))
+    | none => (parseRSCaddyfile true c).map (.start (r == "r"))
   | _ => none
 
 /-- does the config (its bytes are its token) carry the pki app? -/
@@ -496,12 +574,21 @@ def rsAsLoad (b : Bytes) : Load :=
   match parseRSTok (bytesToString b).toList with
   | some t => t.load true
   | none =>
-    match parseRSCaddyfile (bytesToString b) with
+    match parseRSCaddyfile true (bytesToString b) with
     | some l => l
     | none =>
     match loadOfContent b with
     | some l => l
     | none => { cfg := b, force := true, accepted := false, nonNil := true, persistCfg := true, allowPersist := true }
+
+/-- what `caddy.Load(b, force)` means for a document of this protocol -/
+def rsMk (b : Bytes) (force : Bool) : Load :=
+  match parseRSTok (bytesToString b).toList with
+  | some t => t.load force
+  | none =>
+    match parseRSCaddyfile force (bytesToString b) with
+    | some l => l
+    | none => { cfg := b, force := force, accepted := false, nonNil := true, persistCfg := true, allowPersist := true }
 
 /-- the document a sub-path write produces: the app object of `t` inside the running document
     (persistence flag and pki app stay); `none`: the request is refused (no running document of this
@@ -529,7 +616,7 @@ def rsPushStep (pki : Bool) (e : PEnv) (data : Option EnvVal) (files : List EnvF
     (w : RSWorld) : String × RSWorld :=
   if (loadStep codeStyle l none a).res == .rejected then ("=rej" ++ rsState pki w e data files, w)
   else
-    ("=ok" ++ (withRoot (rsLoaded e files l a w)
+    ("=ok" ++ (if (loadStep codeStyle l none a).log.isEmpty then "" else "!") ++ (withRoot (rsLoaded e files l a w)
                   (if (loadStep codeStyle l none a).res == .same then [] else l.cfg) (storageDir data e files)).2
       ++ (if (loadStep codeStyle l none a).res == .same && hasPKI l.cfg then
             "/r" ++ rootName (w.roots (storageDir data e files)) else "")
@@ -541,10 +628,13 @@ def rsPushStep (pki : Bool) (e : PEnv) (data : Option EnvVal) (files : List EnvF
 def rsOut (pki : Bool) (e : PEnv) (data : Option EnvVal) (files : List EnvFile) : List RSEvent → RSWorld → List String
   | [], _ => []
   | .kill :: evs, w => ("K" ++ rsState pki w e data files) :: rsOut pki e data files evs { w with run := none }
-  | .push l :: evs, w =>
+  | .push k r :: evs, w =>
     match w.run with
-    | none => ("P=norun" ++ rsState pki w e data files) :: rsOut pki e data files evs w
-    | some a => ("P" ++ (rsPushStep pki e data files l a w).1) :: rsOut pki e data files evs (rsPushStep pki e data files l a w).2
+    | none => (k ++ "=norun" ++ rsState pki w e data files) :: rsOut pki e data files evs w
+    | some a =>
+      match handleLoad rsAdapt rsMk r with
+      | .load l => (k ++ (rsPushStep pki e data files l a w).1) :: rsOut pki e data files evs (rsPushStep pki e data files l a w).2
+      | _ => (k ++ "=rej" ++ rsState pki w e data files) :: rsOut pki e data files evs w
   | .patch byId t :: evs, w =>
     match w.run with
     | none => ((if byId then "I" else "Q") ++ "=norun" ++ rsState pki w e data files) :: rsOut pki e data files evs w
@@ -571,7 +661,7 @@ def rsOut (pki : Bool) (e : PEnv) (data : Option EnvVal) (files : List EnvFile) 
 def rsUsesPKI : List RSEvent → Bool
   | [] => false
   | .start _ l :: es => hasPKI l.cfg || rsUsesPKI es
-  | .push l :: es => hasPKI l.cfg || rsUsesPKI es
+  | .push _ r :: es => hasPKI r.body || rsUsesPKI es
   | .patch _ _ :: es => rsUsesPKI es
   | .kill :: es => rsUsesPKI es
 
@@ -584,6 +674,7 @@ def handleRS (env files evs : String) : String :=
 def handle : List String → String
   | ["ca", hist] => handleCA hist
   | ["fs", hist] => handleFS hist
+  | ["cs", hist] => handleCS hist
   | ["rs", env, files, evs] => handleRS env files evs
   | ["as", hist] => handleAS hist
   | _ => "bad-op"
